@@ -51,6 +51,7 @@ def main(argv=None):
     ap.add_argument("--leg", action="append", help="run only these legs (development)")
     ap.add_argument("--keep", action="store_true", help="keep the work directory")
     ap.add_argument("--no-evidence", action="store_true", help="do not rewrite the evidence file (self-test runs)")
+    ap.add_argument("--memcheck-only", action="store_true", help="development: run only the valgrind legs of the thorough tier")
     a = ap.parse_args(argv)
     pid = a.pid
     if pid not in props.PROPS:
@@ -67,6 +68,25 @@ def main(argv=None):
         with open(a.replay) as fh:
             rp = json.load(fh)
         tier, seed = rp["tier"], rp["seed"]
+        if rp.get("fuzz_input_hex") is not None:
+            # violation found by a libFuzzer leg: run the target on the stored input
+            import subprocess
+            import tempfile
+            L = [x for x in P["legs"] if x["name"] == rp["leg"]][0]
+            exe = build.build_fuzzer(build.ensure_lib("fuzz", repo), L, repo)
+            with tempfile.NamedTemporaryFile(suffix=".input") as tf:
+                tf.write(bytes.fromhex(rp["fuzz_input_hex"]))
+                tf.flush()
+                env = dict(os.environ, ASAN_OPTIONS="detect_leaks=0:handle_abort=1", VF_FUZZ_LOG="1")
+                if known:
+                    env["VF_KNOWN"] = ",".join(known)
+                r = subprocess.run([exe, tf.name], env=env, stdout=subprocess.PIPE, stderr=subprocess.STDOUT)
+            sys.stderr.write(r.stdout.decode(errors="replace")[-8000:])
+            if r.returncode != 0:
+                print("VIOLATION property=%s replay=%s" % (pid, a.replay))
+                return 1
+            print("replay of fuzz input: no violation")
+            return 0
 
     work = os.path.join(VERIF, ".work", "%s-%s-%d" % (pid, tier, os.getpid()))
     shutil.rmtree(work, ignore_errors=True)
@@ -80,6 +100,22 @@ def main(argv=None):
         legs = []
         for L in P["legs"]:
             if a.leg and L["name"] not in a.leg:
+                continue
+            if L.get("kind") == "fuzz":
+                runs = L.get("runs", {}).get(tier, 0)
+                if a.replay or not runs or os.environ.get("VERIF_NO_FUZZ"):
+                    continue
+                try:
+                    fdir = build.ensure_lib("fuzz", repo)
+                    exe = build.build_fuzzer(fdir, L, repo)
+                except build.BuildError as e:
+                    print("INCONCLUSIVE: fuzz target %s does not build:\n%s" % (L["name"], e), file=sys.stderr)
+                    return 2
+                lw = os.path.join(work, L["name"])
+                os.makedirs(lw)
+                corpus = os.path.join(VERIF, L["corpus"]) if L.get("corpus") else None
+                legs.append((L, run.FuzzLeg(exe, L["name"], seed, lw, repo, runs, jobs=L.get("jobs", 16),
+                                            max_len=L.get("max_len", 4096), corpus=corpus, known=list(known))))
                 continue
             if a.replay and L["name"] != rp["leg"]:
                 continue
@@ -144,6 +180,8 @@ def main(argv=None):
             print("replay of %s case %d: no violation" % (rp["leg"], rp["case"]))
             return 0
 
+        if a.memcheck_only:
+            legs = [(L, leg) for L, leg in legs if L.get("memcheck_cases")]
         for L, leg in legs:
             if L.get("memcheck_cases"):
                 total = leg.count_cases()
